@@ -696,6 +696,9 @@ class Screen(BaseScreen, RealTerminal):
                 output.extend(("\x08" * back, ias))  # pylint: disable=used-before-assignment  # defined in `if row`
 
                 if encoding != "utf-8":
+                    if last_charset_flag == "U" and insertcs != "U":
+                        output.append(escape.IBMPC_OFF)
+
                     if insertcs is None:
                         icss = escape.SI
                     elif insertcs == "U":
@@ -715,6 +718,10 @@ class Screen(BaseScreen, RealTerminal):
 
             if whitespace_at_end:
                 output.append(escape.ERASE_IN_LINE_RIGHT)
+
+        if encoding != "utf-8" and last_charset_flag == "U":
+            # the next frame starts from SI/SO only: do not leave the IBM PC character set selected
+            output.append(escape.IBMPC_OFF)
 
         if canvas.cursor is not None:
             x, y = canvas.cursor
